@@ -1,7 +1,7 @@
 (* Entry points of the executable model, by name.  Used both by the extracted
    OCaml driver and by vm_compute in generated cases files. *)
 From Coq Require Import ZArith QArith List String Bool.
-From SKC Require Import Model.Val Base.QBool Base.QList Base.QRank Model.Dominance Model.Agg Model.Electre Model.Result Model.Select.
+From SKC Require Import Model.Val Base.QBool Base.QList Base.QRank Model.Dominance Model.Agg Model.Electre Model.Result Model.Select Model.Transform.
 Import ListNotations.
 Local Open Scope string_scope.
 
@@ -131,12 +131,63 @@ Definition run_select (a : dmx * list op) : val :=
   eRes eDmx (run_ops (snd a) (fst a)).
 Definition run_alias (c : Z) : val := eO eB (alias_sense c).
 
+(* ---- C10-C12: transformers ------------------------------------------------------------ *)
+Definition scaler_of (code : Z) (ps : list Q) : option (list Q -> list Q) :=
+  match code, ps with
+  | 0, _ => Some sum_scale
+  | 1, _ => Some maxabs_scale
+  | 2, [lo; hi] => Some (minmax_scale lo hi)
+  | 3, _ => Some push_neg
+  | 4, [e] => Some (add_zero e)
+  | _, _ => None
+  end%Z.
+(* (code, params, target 0 matrix / 1 weights / 2 both, m, rows, weights) -> (rows', weights') *)
+Definition run_scale (a : Z * list Q * Z * list (list Q) * list Q) : val :=
+  let '(code, ps, tgt, rows, w) := a in
+  match scaler_of code ps with
+  | None => VE E_DECODE
+  | Some f =>
+      let m := List.length w in
+      let rows' := if (tgt =? 1)%Z then rows else on_matrix m f rows in
+      let w' := if (tgt =? 0)%Z then w else on_weights f w in
+      VL [eTable eQ rows'; eL eQ w']
+  end.
+Definition run_cenit (a : list bool * list (list Q)) : val :=
+  eTable eQ (cenit_matrix (fst a) (snd a)).
+(* inverters: 0 negate, 1 reciprocal *)
+Definition run_invert (a : Z * list bool * list (list Q)) : val :=
+  let '(code, objs, rows) := a in
+  let f := if (code =? 0)%Z then Qopp else Qinv in
+  VL [eTable eQ (invert_matrix f objs rows); eL eB (map (fun _ => true) objs)].
+(* rational cores of the irrational scalers, per vector: sumsq, mean, population variance *)
+Definition run_cores (v : list Q) : val := VL [eQ (sumsq v); eQ (mean v); eQ (pvar v)].
+Definition run_equal_weights (a : Q * nat) : val := eL eQ (equal_weights (fst a) (snd a)).
+Definition kind_of (code : Z) : kind :=
+  if (code =? 0)%Z then KScaler TMatrix else if (code =? 1)%Z then KScaler TWeights
+  else if (code =? 2)%Z then KScaler TBoth else if (code =? 3)%Z then KCenit
+  else if (code =? 4)%Z then KInverter else if (code =? 5)%Z then KWeighter
+  else if (code =? 6)%Z then KFilter else KImputer.
+Definition part_of (code : Z) : part :=
+  if (code =? 0)%Z then PAlts else if (code =? 1)%Z then PCrits else if (code =? 2)%Z then PObjs
+  else if (code =? 3)%Z then PWts else PMatrix.
+Definition run_frame_user (codes : list Z) : val :=
+  eL (fun p => eB (declares (KUser (map part_of codes)) p)) [PAlts; PCrits; PObjs; PWts; PMatrix].
+Definition run_frame (code : Z) : val :=
+  eL (fun p => eB (declares (kind_of code) p)) [PAlts; PCrits; PObjs; PWts; PMatrix].
+
 Definition dispatch (fn : string) (arg : val) : val :=
   if fn =? "dominance" then with_arg (dP2 (dL dB) dMatrix) run_dominance arg
   else if fn =? "rank" then with_arg (dP2 dB (dL dQ)) run_rank arg
   else if fn =? "validate_rank" then with_arg (dL dZ) (fun vs => eB (validate_rank vs)) arg
   else if fn =? "select" then with_arg (dP2 dDmx (dL dOp)) run_select arg
   else if fn =? "alias" then with_arg dZ run_alias arg
+  else if fn =? "scale" then with_arg (dP5 dZ (dL dQ) dZ dMatrix (dL dQ)) run_scale arg
+  else if fn =? "cenit" then with_arg (dP2 (dL dB) dMatrix) run_cenit arg
+  else if fn =? "invert" then with_arg (dP3 dZ (dL dB) dMatrix) run_invert arg
+  else if fn =? "cores" then with_arg (dL dQ) run_cores arg
+  else if fn =? "equal_weights" then with_arg (dP2 dQ dN) run_equal_weights arg
+  else if fn =? "frame" then with_arg dZ run_frame arg
+  else if fn =? "frame_user" then with_arg (dL dZ) run_frame_user arg
   else if fn =? "wsm" then with_arg dDM run_wsm arg
   else if fn =? "ratio" then with_arg dDM run_ratio arg
   else if fn =? "refpoint" then with_arg dDM run_refpoint arg
